@@ -18,7 +18,7 @@ const modelMax = 5000
 func emitCase(emit Emit, c editops.ECase, withModel bool) {
 	emitTables(emit, c)
 	toks := editops.Tokens(c.Ops)
-	if c.PadPat {
+	if c.PadPat || c.Mixed {
 		// a pattern that also selects pad files (e.g. "f.*"): the spec does not know them, so no
 		// expectation; the model does (correspondence below), validity by the C02 oracle
 		emit("P", "p_c02", append([]string{H(c.Img)}, toks...)...)
@@ -71,7 +71,7 @@ func gen(r *Rng, tier string, emit Emit) {
 		emit("C", "find", H(img), fvp, H([]byte(t)))
 		// a pattern: FindFilePredicate selects exactly the files it matches in full
 		pat, set := editops.GenPatternFor(rr, reg)
-		if set != nil {
+		if set != nil && !editops.LastMixed() {
 			var hs []string
 			for _, x := range set {
 				hs = append(hs, H([]byte(x)))
@@ -149,6 +149,17 @@ func gen(r *Rng, tier string, emit Emit) {
 		}
 		emitCase(emit, c, tier == "thorough" || k%2 == 1)
 	})
+	// the same edits inside a flash image: the descriptor, the other regions and the gaps are
+	// "every other region and descriptor byte" (implementation side only)
+	nfl := 50
+	if tier == "thorough" {
+		nfl = 1500
+	}
+	for it := 0; it < nfl; it++ {
+		rr := r.Fork(uint64(9000000 + it))
+		c := editops.FlashCase(rr, editops.GenCase(rr, rr.Pick(0, 0, 1), rr.Range(1, 3)))
+		emitCase(emit, c, false)
+	}
 }
 
 func emitTables(emit Emit, c editops.ECase) {
